@@ -257,3 +257,7 @@ impl BuilderError {
         }
     }
 }
+
+#[cfg(kani)]
+#[path = "/verif/kani/error.rs"]
+mod verif_kani_error;
